@@ -5,7 +5,9 @@
 cd /verif
 P=${1:-2}
 ls -d seeded/C*/ | sed 's#seeded/##; s#/##' | xargs -P "$P" -I{} sh -c '
-  id={}; prop=${id%-*}; [ "$id" = "C20-F" ] && prop=C02
-  out=$(tools/try_seed.sh /verif/seeded/$id/patch.diff $prop 2>&1 | grep -m1 "^== ")
+  id={}; prop=${id%-*}; [ "$id" = "C20-F" ] && prop=C02; [ "$id" = "C01-G" ] && prop=C08; [ "$id" = "C02-H" ] && prop=C08
+  full=$(tools/try_seed.sh /verif/seeded/$id/patch.diff $prop 2>&1)
+  out=$(echo "$full" | grep -m1 "^== ")
+  case "$out" in *"rc=2"*) echo "$full" > /tmp/regress-trouble-$id.log;; esac
   echo "$id $out"' | tee /tmp/regress.log | grep -v "rc=1 VIOLATION" 
 echo "done: $(grep -c "rc=1 VIOLATION" /tmp/regress.log) caught of $(wc -l < /tmp/regress.log)"
